@@ -289,6 +289,17 @@ def run():
     def order():
         gf = prog.find(r"^(group::)?group_files$")
         cands = [g for g in prog.closures_of(gf) if "Reverse" in g.ret]
+        if len(cands) == 0:
+            # group_files itself does not sort its result: whichever pipeline produced the groups (default, --transform,
+            # --skip-content-hash), the order they arrive in is what gets written - a counterexample, replayed through the CLI matrix
+            o = Obligation("group_files: the final group order is by decreasing (file length, hash prefix)", "E2 mirsym/z3", fn(), "all pipelines")
+            o.key = "report:group-order"
+            o.verdict = "violated"
+            o.detail = "group_files applies no sort by a Reverse((len, hash)) key to the list it returns"
+            o.cex = {"reason": o.detail}
+            replay(o, ctx)
+            rep.add(o)
+            return
         if len(cands) != 1:
             raise Inconclusive("sort key closure of group_files: %d candidates" % len(cands))
         eng = oblig.engine(prog, unroll=0, extra={r"FileHash::u128_prefix$": summaries.pure("u128_prefix")})
